@@ -24,7 +24,7 @@ RULE = ("server streams as in C15 (redefinition, partial updates, kind mismatche
         "callbacks that were invoked; distinct = hash(stream, callback configuration)")
 ASSUMPTIONS = ["no order among the events of one message is demanded", "for BLOB values only 'changed => event' is demanded",
                "a callback registered while an event is being dispatched may or may not receive that event"]
-REQUIRED_EVENTS = ["streams", "events_raised", "callback_invocations_checked", "callbacks_removed_between_messages", "criteria_removals_matching_several",
+REQUIRED_EVENTS = ["snooping_clients_following_several_properties_of_one_device", "snooped_property_changes_judged", "streams", "events_raised", "callback_invocations_checked", "callbacks_removed_between_messages", "criteria_removals_matching_several",
                    "in_callback_self_removals", "in_callback_removals_of_later", "raising_callbacks_invoked", "coroutine_callbacks_invoked",
                    "chains_checked", "messages_processed_from_inside_a_callback", "partially_applicable_messages", "pending_values_assigned"]
 
@@ -375,7 +375,112 @@ async def run_stream(ctx, case):
     return total_events, len(invoked)
 
 
+def _snoop_spec(name):
+    def el(attr, nm, **kw):
+        return dict({"attr": attr, "name": nm, "label": None, "default": None, "enabled": True}, **kw)
+
+    def vec(attr, kind, nm, elements, **kw):
+        return dict({"attr": attr, "kind": kind, "name": nm, "label": None, "state": None, "perm": None, "timeout": None, "enabled": True,
+                     "elements": elements}, **kw)
+    vectors = [vec("t", "Text", "TXT", [el("e0", "T0"), el("e1", "T1")]),
+               vec("n", "Number", "NUM", [el("e0", "N0", format="%.3f", min=None, max=None, step=0)]),
+               vec("s", "Switch", "SW", [el("e0", "S0"), el("e1", "S1")], rule="OneOfMany", default_on="S0"),
+               vec("u", "Text", "UNFOLLOWED", [el("e0", "U0")])]
+    return {"name": name, "levels": [{"groups": [{"attr": "g", "name": "G", "enabled": True, "vectors": vectors}]}]}
+
+
+def snooping_case(ctx, i):
+    """An in-process client (a driver snooping another one) that follows SEVERAL properties of one device, each named in a
+    getProperties of its own, in any order - what Driver.snoop_device(device, name) is for.  Every change of every property it
+    has been given a definition of raises its events in an unbroken chain, and the value it holds is the device's."""
+    from indi.client import events as CE
+    from indi.routing import Router
+    from vf.gen import drivers as D
+    rng = ctx.rng("snooping", i)
+    case = {"mode": "snooping", "i": i}
+    router = Router()
+    cam = D.build(_snoop_spec("CAM"))(router=router)
+    guide = D.build(_snoop_spec("GUIDE"))(router=router)
+    order = rng.sample(["TXT", "NUM", "SW"], rng.choice([2, 3, 3]))
+    if rng.random() < 0.25:
+        order.insert(rng.randrange(len(order) + 1), None)          # the whole device, before / between / after the named ones
+    log = []
+    client = guide.snooping_client
+    early = rng.random() < 0.5
+    if early:
+        client.onevent(callback=log.append, device="CAM")
+    for k, nm in enumerate(order):
+        guide.snoop_device("CAM", nm)
+        if rng.random() < 0.3:
+            guide.snoop_device("GUIDE" if rng.random() < 0.5 else "NOBODY", rng.choice([None, "TXT"]))      # and something else in between
+    if not early:
+        client.onevent(callback=log.append, device="CAM")
+    ctx.count("snooping_clients_following_several_properties_of_one_device")
+    attr = {"TXT": "t", "NUM": "n", "SW": "s", "UNFOLLOWED": "u"}
+    known = lambda: {v for v in stack.client_view(client).get("CAM", {})}
+    chain = {}       # (vector, element) -> last value seen in an event
+
+    def device_values(vn):
+        vec = D.vector_of(cam, "g", attr[vn])
+        return {e.name: e.value for e in vec._elements.values()}
+
+    def same(vn, a, b):
+        if vn == "NUM":
+            try:
+                return abs(float(a) - float(b)) < 1e-6
+            except (TypeError, ValueError):
+                return False
+        return a == b
+
+    for step in range(rng.choice([6, 12, 20])):
+        vn = rng.choice(["TXT", "NUM", "SW", "UNFOLLOWED"])
+        before = device_values(vn)
+        vec = D.vector_of(cam, "g", attr[vn])
+        del log[:]
+        try:
+            if vn in ("TXT", "UNFOLLOWED"):
+                D.element_in(vec, rng.choice(["e0", "e1"]) if vn == "TXT" else "e0").value = f"text {i}.{step}.{rng.randrange(3)}"
+            elif vn == "NUM":
+                D.element_in(vec, "e0").value = round(rng.uniform(-90, 90), 3)
+            else:
+                D.element_in(vec, rng.choice(["e0", "e1"])).value = "On"
+            if rng.random() < 0.3:
+                vec.state_ = rng.choice(["Ok", "Busy", "Alert", "Idle"])
+        except Exception as e:
+            ctx.violate(f"snooping:driver-operation-raises:{type(e).__name__}", f"changing {vn} raised {e!r} with a snooping client attached", case, {"order": order})
+            return
+        after = device_values(vn)
+        if vn not in known():
+            continue
+        ctx.count("snooped_property_changes_judged")
+        held = {n_: v_[1] for n_, v_ in stack.client_view(client)["CAM"][vn]["elements"].items()}
+        for en, dv in after.items():
+            if not same(vn, held.get(en), dv):
+                ctx.violate(f"snooping:client-holds-stale-value:{vn}",
+                            f"CAM.{vn}.{en} is {dv!r} on the device, the snooping client (followed, in this order: {order}) holds {held.get(en)!r}", case, {"order": order})
+                return
+            evs = [e for e in log if isinstance(e, CE.ValueUpdate) and e.vector.name == vn and e.element.name == en]
+            changed = not same(vn, before[en], dv)
+            if changed != bool(evs):
+                ctx.violate(f"snooping:{'no-event-for-a-change' if changed else 'event-without-a-change'}:{vn}",
+                            f"CAM.{vn}.{en} went {before[en]!r} -> {dv!r} on the device; the callback registered for device CAM saw {len(evs)} value events "
+                            f"(followed, in this order: {order})", case, {"order": order})
+                return
+            for e in evs:
+                if (vn, en) in chain and not same(vn, chain[(vn, en)], e.old_value):
+                    ctx.violate(f"snooping:event-chain-broken:{vn}", f"CAM.{vn}.{en}: event old value {e.old_value!r}, previous event's new value {chain[(vn, en)]!r}", case, {"order": order})
+                    return
+                chain[(vn, en)] = e.new_value
+            if evs and not same(vn, evs[-1].new_value, dv):
+                ctx.violate(f"snooping:last-event-is-not-the-current-value:{vn}", f"CAM.{vn}.{en}: last event says {evs[-1].new_value!r}, the device has {dv!r}", case, {"order": order})
+                return
+    ctx.case(("snooping", i), nontrivial=True)
+
+
 def one_case(ctx, case):
+    if case.get("mode") == "snooping":
+        snooping_case(ctx, case["i"])
+        return
     ev, inv = asyncio.run(run_stream(ctx, case))
     ctx.case((case["i"], case["n"]), nontrivial=ev >= 5 and inv >= 3, sample={"messages": case["n"], "events": ev, "callbacks_invoked": inv})
 
@@ -389,6 +494,9 @@ def run(ctx):
         one_case(ctx, {"i": i, "n": rng.choice([5, 10, 20, 40])})
         if ctx.enough():
             break
+    for i in range(400 if not ctx.thorough else 20000):
+        if ctx.mine(i):
+            snooping_case(ctx, i)
 
 
 def replay(ctx, case):
